@@ -394,8 +394,16 @@ pub fn run(run: &mut Run) {
     run.enumerate("every-atom-count", all_counts().into_iter(), write_oracle);
     run.prop("write-random", write_strategy, run.tier.pick(3_000, 150_000), write_oracle);
     run.prop("sender-sequences", seq_strategy, run.tier.pick(20_000, 1_000_000), seq_oracle);
+    if run.tier == crate::engine::Tier::Thorough {
+        // coverage-guided byte fuzzing of the same oracle (libFuzzer, structure-aware through fuzzde); see fuzzbridge.rs
+        crate::fuzzbridge::campaign(run, "c14seq", 3_000_000, 400);
+    }
+    if run.tier == crate::engine::Tier::Thorough {
+        // coverage-guided byte fuzzing of the same oracle (libFuzzer, structure-aware through fuzzde); see fuzzbridge.rs
+        crate::fuzzbridge::campaign(run, "disthdr", 3_000_000, 400);
+    }
 }
 
 pub fn replays() -> Vec<ReplayEntry> {
-    vec![replay_entry("every-atom-count", write_oracle), replay_entry("write-random", write_oracle), replay_entry("sender-sequences", seq_oracle)]
+    vec![replay_entry("fuzz:c14seq", crate::fuzzbridge::eval_input), replay_entry("fuzz:disthdr", crate::fuzzbridge::eval_input), replay_entry("every-atom-count", write_oracle), replay_entry("write-random", write_oracle), replay_entry("sender-sequences", seq_oracle)]
 }
